@@ -199,4 +199,24 @@ func genC18(tier string, r *rng) {
 		h + "\n." + p + "." + s, h + "." + enc([]byte("{\"sub\":\"x\"}x"), 1) + "." + s} {
 		emitJ(t)
 	}
+	// misplaced padding: every segment, in padded and unpadded form, with 0..4 '=' appended or one removed
+	for _, pad := range []int{0, 1} {
+		segs := []string{enc([]byte(`{"alg":"HS256"}`), pad), enc([]byte(`{"sub":"xy"}`), pad), enc([]byte("sig!"), pad), enc([]byte("s"), pad)}
+		for i := 0; i < 3; i++ {
+			for extra := 0; extra <= 4; extra++ {
+				t := []string{segs[0], segs[1], segs[2]}
+				if i == 2 && extra%2 == 1 {
+					t[2] = segs[3]
+				}
+				t[i] += strings.Repeat("=", extra)
+				emitJ(strings.Join(t, "."))
+				if strings.HasSuffix(t[i], "=") {
+					t[i] = t[i][:len(t[i])-extra-1]
+					emitJ(strings.Join(t, "."))
+				}
+			}
+		}
+		emitJ(segs[0] + "." + segs[1] + ".=")
+		emitJ(segs[0] + "." + segs[1] + ".====")
+	}
 }
